@@ -5,6 +5,7 @@
 package rt
 
 import (
+	"context"
 	"reflect"
 	"strings"
 )
@@ -55,3 +56,22 @@ type Case struct {
 var Cases []*Case
 
 func Register(c *Case) { Cases = append(Cases, c) }
+
+type ctxTermKey struct{}
+
+// Ctx is what an emitted provider of context.Context returns: a never-cancelled context that carries the
+// provider's symbolic term.
+func Ctx(term string) context.Context {
+	return context.WithValue(context.Background(), ctxTermKey{}, term)
+}
+
+// CtxTerm reads the term of a context: the term a provider gave it, or "ctx" for the injector's own context.
+func CtxTerm(c context.Context) string {
+	if c == nil {
+		return "<nil>"
+	}
+	if v, ok := c.Value(ctxTermKey{}).(string); ok {
+		return v
+	}
+	return "ctx"
+}
